@@ -749,8 +749,9 @@ func (g *Gen) subdocProgram(n int) {
 
 // queryProgram: a multi-collection write history with the query family run at random positions on every collection.
 func (g *Gen) queryProgram(n int) {
-	g.colls = []string{"c0", "c1", "c2"}
+	g.colls = []string{"c0", "c1", "c2", "c4"}
 	g.keys = []string{"k0", "k1", "k2", "k3"}
+	g.emit(Line{Op: "mkcoll", Pos: []string{"c4"}, Args: [][2]string{{"via", "h0"}}}) // s2.a: same name as c1 (s1.a), other scope
 	for i := 0; i < n; i++ {
 		g.tick()
 		c, k := pick(g.r, g.colls), pick(g.r, g.keys)
